@@ -357,6 +357,9 @@ def sicnm(ae: nAE,
     T = T[0:nt + 1]
     y = y[0:nt + 1]
 
+    if np.max(np.abs(ae.F(y[-1], p))) < opt.ite_tol:
+        stats.succeed = True
+
     sol = aesol(y[-1], stats=stats)
 
     stats.T = T
